@@ -114,6 +114,19 @@ def _check_case(case, res, count=True):
         fac = LanguageClassesFactory(lg)
     except Exception as exc:
         return ('build:raised-%s' % type(exc).__name__, 'building classes raised %r' % (exc,))
+    dup_names = False
+    if case.get('dup_name') and len(am.assets) >= 2:
+        # two assets carry the same name in every file (the loaders rename the later one): what the native loader
+        # makes of its file is the reference; preferably the earlier entry has the larger id
+        pairs = [(i, j) for i in range(len(am.assets)) for j in range(i + 1, len(am.assets))]
+        desc = [(i, j) for (i, j) in pairs if am.assets[i]['id'] > am.assets[j]['id']]
+        i, j = rng.choice(desc or pairs)
+        am.assets[j]['name'] = am.assets[i]['name']
+        dup_names = True
+        if count:
+            res.count('class:same-name-twice-in-the-file')
+            if desc:
+                res.count('class:same-name-twice-earlier-entry-has-larger-id')
     want = normalise_abstract(lang, am)
     counters = {}
     if count:
@@ -152,7 +165,7 @@ def _check_case(case, res, count=True):
             return ('native:raised-%s' % type(exc).__name__, 'the native loader raised %r on the equivalent native file' % (exc,))
         if count:
             res.count('loader:native')
-        f = diff('native', native, want)
+        f = diff('native', native, want) if not dup_names else None
         if f:
             return f
         # (ii) 0.0.39
@@ -194,6 +207,22 @@ def _check_case(case, res, count=True):
             f = diff('securicad', normalise(m, lang), native)
             if f:
                 return f
+            if case.get('regenerate'):
+                # the language graph is regenerated (same specification) and the archive loaded again
+                try:
+                    lg.regenerate_graph()
+                    fac2 = fac if rng.random() < 0.5 else LanguageClassesFactory(lg)
+                    m = load_model_from_scad_archive(p, lg, fac2)
+                    m9 = load_model_from_older_version(os.path.join(d, 'old.json'), fac2, '0.0.39')
+                except Exception as exc:
+                    return ('securicad:raised-%s:after-regenerate' % type(exc).__name__,
+                            'after lang_graph.regenerate_graph() loading the same files again raised %r' % (exc,))
+                if count:
+                    res.count('class:loaded-again-after-regenerate_graph')
+                f = (diff('securicad', normalise(m, lang), native) if m is not None else ('securicad:returned-none', 'None after regenerate')) or \
+                    diff('updater', normalise(m9, lang), native)
+                if f:
+                    return (f[0] + ':after-regenerate', 'after lang_graph.regenerate_graph(): ' + f[1])
     finally:
         shutil.rmtree(d, ignore_errors=True)
         if count:
@@ -225,7 +254,7 @@ def gen_case18(rng, cache):
             if steps:
                 eps[a['id']] = rng.sample(steps, min(len(steps), rng.randint(1, 3)))
         t['entry_points'] = [(k, v) for k, v in eps.items()]
-    return {'spec': s, 'amodel': am.to_json(), 'seed': rng.randrange(10 ** 9)}
+    return {'spec': s, 'amodel': am.to_json(), 'seed': rng.randrange(10 ** 9), 'dup_name': rng.random() < 0.2, 'regenerate': rng.random() < 0.3}
 
 
 def run(rng, res, tier, shard, nshards):
